@@ -352,11 +352,34 @@ def execTorn (env : Env) (fs : FS) (t : Nat) : Call → FS
     | _ => fs
   | _ => fs
 
+/-- The elements of a list selected by the bits of a number (lowest bit = first element). -/
+def maskSel {α : Type} : List α → Nat → List α
+  | [], _ => []
+  | q :: qs, m => if m % 2 = 1 then q :: maskSel qs (m / 2) else maskSel qs (m / 2)
+
+theorem mem_maskSel {α : Type} {l : List α} {m : Nat} {q : α} (h : q ∈ maskSel l m) : q ∈ l := by
+  induction l generalizing m with
+  | nil => cases h
+  | cons x xs ih =>
+    simp only [maskSel] at h
+    split at h
+    · rcases List.mem_cons.mp h with rfl | h'
+      · exact List.mem_cons_self
+      · exact List.mem_cons_of_mem _ (ih h')
+    · exact List.mem_cons_of_mem _ (ih h)
+
 /-- What a call that returns an injected error leaves behind: by default nothing; a data write
-may have written a prefix (`short` bytes) before failing. -/
+may have written a prefix (`short` bytes) before failing, a recursive removal may have removed
+some of the entries. -/
 def execFail (env : Env) (fs : FS) (short : Nat) : Call → FS
   | .writeAt p off d => (exec env fs (.writeAt p off (d.take short))).1
   | .appendWrite p d => (exec env fs (.appendWrite p (d.take short))).1
+  | .removeTree p =>
+    -- remove_dir_all that fails half-way: some of the files and links below `p` are gone already —
+    -- which ones depends on the directory order, so any subset (the bits of `short`) is possible
+    match fs.get p with
+    | some .dir => fs.delAll (maskSel ((fs.below p).filter (fun q => fs.get q != some .dir)) short)
+    | _ => fs
   | _ => fs
 
 end Cacache
